@@ -77,7 +77,6 @@ from vgi_rpc.rpc._wire import (
     _ClientLogSink,
     _coerce_input_batch,
     _deserialize_params,
-    _drain_stream,
     _flush_collector,
     _pending_log_metadata,
     _read_request,
@@ -90,7 +89,7 @@ from vgi_rpc.rpc._wire import (
     _write_result_batch,
     _write_stream_header,
 )
-from vgi_rpc.shm import ShmSegment, resolve_shm_batch
+from vgi_rpc.shm import ShmSegment, is_shm_pointer_batch, resolve_shm_batch
 from vgi_rpc.transport_options import (
     TRANSPORT_OPTIONS_METHOD_NAME,
     worker_transport_metadata,
@@ -426,6 +425,24 @@ def _maybe_attach_shm(
         # the exception escaping the serve loop.
         _logger.warning("Ignoring unusable SHM segment %r (size %r): %s", shm_name, shm_size, exc)
         return None
+
+
+def _drain_input_stream(reader: ValidatedReader, shm: ShmSegment | None) -> None:
+    """Consume an input stream nobody will process, giving back the shm regions it points at.
+
+    The client allocated a region for every batch it routed through the
+    segment and relies on the reader to free it; a pointer batch that is
+    merely skipped would keep its region allocated for the rest of the session.
+    """
+    while True:
+        try:
+            batch, custom_metadata = reader.read_next_batch_with_custom_metadata()
+        except StopIteration:
+            return
+        if shm is not None and is_shm_pointer_batch(batch, custom_metadata):
+            offset = custom_metadata.get(SHM_OFFSET_KEY) if custom_metadata is not None else None
+            with contextlib.suppress(Exception):
+                shm.free(int(offset))  # type: ignore[arg-type]
 
 
 class _ConnectionShm:
@@ -914,7 +931,7 @@ class RpcServer:
                 if refused_name is not None:
                     refused_info = self._methods.get(refused_name.decode(errors="replace"))
                     if refused_info is not None:
-                        self._drain_refused_stream_input(transport, refused_info)
+                        self._drain_refused_stream_input(transport, refused_info, static_shm or cached_shm)
                 return
 
             # __transport_options__ — framework transport-capability handshake,
@@ -969,7 +986,7 @@ class RpcServer:
                 except ProtocolVersionError as exc:
                     err_schema = info.result_schema if info.method_type == MethodType.UNARY else _EMPTY_SCHEMA
                     _write_error_stream(transport.writer, err_schema, exc, server_id=self._server_id)
-                    self._drain_refused_stream_input(transport, info)
+                    self._drain_refused_stream_input(transport, info, static_shm or cached_shm)
                     return
 
             # Request validation. Both steps are answered with a typed error
@@ -993,7 +1010,7 @@ class RpcServer:
             except Exception as exc:
                 err_schema = info.result_schema if info.method_type == MethodType.UNARY else _EMPTY_SCHEMA
                 _write_error_stream(transport.writer, err_schema, exc, server_id=self._server_id)
-                self._drain_refused_stream_input(transport, info)
+                self._drain_refused_stream_input(transport, info, static_shm or cached_shm)
                 return
 
             # Determine the SHM segment for this call's data plane (resolving
@@ -1037,7 +1054,9 @@ class RpcServer:
             _current_call_stats.reset(stats_token)
             _current_request_id.reset(token)
 
-    def _drain_refused_stream_input(self, transport: RpcTransport, info: RpcMethodInfo) -> None:
+    def _drain_refused_stream_input(
+        self, transport: RpcTransport, info: RpcMethodInfo, shm: ShmSegment | None = None
+    ) -> None:
         """Consume the input stream of a headerless stream call that was refused before dispatch.
 
         The client of a stream without a header reads nothing until its first
@@ -1050,7 +1069,7 @@ class RpcServer:
         """
         if info.method_type == MethodType.STREAM and info.header_type is None:
             with contextlib.suppress(pa.ArrowInvalid, OSError, StopIteration):
-                _drain_stream(ValidatedReader(ipc.open_stream(transport.reader), self._ipc_validation))
+                _drain_input_stream(ValidatedReader(ipc.open_stream(transport.reader), self._ipc_validation), shm)
 
     def _prepare_method_call(
         self, info: RpcMethodInfo, kwargs: dict[str, object]
@@ -1206,7 +1225,7 @@ class RpcServer:
                 # taken for the next request and every later reply would be
                 # one call out of step.
                 with contextlib.suppress(pa.ArrowInvalid, OSError, StopIteration):
-                    _drain_stream(ValidatedReader(ipc.open_stream(transport.reader), self._ipc_validation))
+                    _drain_input_stream(ValidatedReader(ipc.open_stream(transport.reader), self._ipc_validation), shm)
             return
         finally:
             if status == "error":
@@ -1383,4 +1402,4 @@ class RpcServer:
 
         # Drain remaining input so transport is clean for next request
         with contextlib.suppress(pa.ArrowInvalid, OSError):
-            _drain_stream(input_reader)
+            _drain_input_stream(input_reader, shm)
